@@ -53,6 +53,9 @@ type C11Inv struct {
 //	true/fail  constant
 //	argis W    pass iff the first test argument is W                          sh -c 'test "$1" = W' sh
 //	argisnot W pass iff the first test argument is not W                      sh -c 'test "$1" != W' sh
+//	filehas W P pass iff P (relative to the test directory) is a regular file that contains W   grep -qs W P
+//	           (Arg = "W P"; which content lies AT which destination matters, not only which contents exist;
+//	           a directory or a missing path makes grep exit 2)
 //
 // Test arguments are appended to the command by plz: they do not change what grep -q / true / false report
 // (grep -q exits 0 at the first match and fails otherwise), they turn `test -e P` into a usage error.
@@ -137,6 +140,8 @@ func c11Body(op, arg string) string {
 		return `sh -c 'test "$1" = ` + arg + `' sh`
 	case "argisnot":
 		return `sh -c 'test "$1" != ` + arg + `' sh`
+	case "filehas":
+		return "grep -qs " + arg
 	}
 	panic("unknown test op " + op)
 }
@@ -408,8 +413,21 @@ func (s *C11Spec) ExpectedInv(t *C11Test, inv C11Inv) bool {
 		return first == arg
 	case "argisnot":
 		return first != arg
+	case "filehas":
+		w, dest := C11FileHasArg(arg)
+		n, ok := dir[dest]
+		return ok && !n.Dir && strings.Contains(n.Content, w)
 	}
 	return false
+}
+
+// C11FileHasArg splits the argument "W P" of the filehas command.
+func C11FileHasArg(arg string) (w, dest string) {
+	i := strings.IndexByte(arg, ' ')
+	if i < 0 {
+		panic("filehas wants \"W PATH\", got " + arg)
+	}
+	return arg[:i], arg[i+1:]
 }
 
 // RuntimeInputs is a canonical text of everything the property calls the test's runtime inputs: the
